@@ -134,6 +134,7 @@ def check_selection(ctx, fmt, d, stored, lost, arg, mouts):
     except Exception as e:   # the property says selection by name always works (unknown names only warn)
         ctx.disagree('fmt=%s;what=select_flags_raises;exc=%s' % (fmt, type(e).__name__),
                      dict(fmt=fmt, arg=canon_arg(arg)), repr(e), spec_mask, 'select(flags=...) raised')
+        _recover(d)
         return
     exp_raw = stored | (lost.astype(np.uint8) << 3)
     if not np.array_equal(raw, exp_raw):
@@ -242,10 +243,16 @@ def interleave(ctx, fmt, d, stored, lost, base_vis):
         r0 = np.asarray(d.raw_flags[:]).copy() if fmt == 'v4' else None
         arg = rng.choice(['cam', 'all', '', 'static,cal_rfi', ['data_lost'], 'bogus'])
         wsel = rng.choice([None, 'all', ''])
-        if wsel is None:
-            d.select(flags=arg)
-        else:
-            d.select(flags=arg, weights=wsel) if fmt == 'v3' else d.select(flags=arg)
+        try:
+            if wsel is None:
+                d.select(flags=arg)
+            else:
+                d.select(flags=arg, weights=wsel) if fmt == 'v3' else d.select(flags=arg)
+        except Exception as e:
+            ctx.disagree('fmt=%s;what=select_flags_raises;exc=%s' % (fmt, type(e).__name__),
+                         dict(fmt=fmt, arg=canon_arg(arg)), repr(e), None, 'select(flags=...) raised')
+            _recover(d)
+            continue
         after = (d.dumps.tolist(), d.channels.tolist(), d.corr_products.tolist(), d.shape)
         v1 = np.asarray(d.vis[:])
         ok = before == after and np.array_equal(v0, v1)
@@ -269,6 +276,16 @@ def interleave(ctx, fmt, d, stored, lost, base_vis):
         ctx.note_case((fmt, 'hist', step, kind, canon_arg(arg), before[0], before[1]), sample=None)
         ctx.count('history_steps')
     d.select()
+
+
+def _recover(d):
+    """select() keeps a failing flags= keyword in d._selection and would raise again on every later call:
+    forget it so that the search can go on after the disagreement was recorded."""
+    try:
+        d._selection.pop('flags', None)
+        d.select()
+    except Exception:
+        pass
 
 
 def _cp_index(d):
@@ -384,6 +401,11 @@ def gen_v4cal(rng, tier='quick', force=None):
         hist.append(st)
     if not any('flags' in st for st in hist):
         hist[0]['flags'] = 'cam'
+    if force:
+        # every seed meets: a selection without postproc and data_lost, a later call without flags=, postproc only,
+        # data_lost without postproc, and back to all
+        hist = [{'flags': 'cam'}, {'dumps': [0, T]}, {'flags': 'postproc'}, {'flags': 'data_lost,ingest_rfi'},
+                {'reset': 1}, {'flags': 'all'}] + hist
     return dict(stream='v4cal', T=T, F=F, ants=ants, seed=rng.randrange(10 ** 6), calmode=calmode,
                 cal=dict(antlist=antlist, pol_ordering=pols, products=products), applycal=applycal,
                 chunks=chunks, lose=lose, hist=hist, shuffle_bls=rng.random() < 0.3,
